@@ -39,7 +39,7 @@ func vocab() []string {
 			"1e1.5", "0x1p3", "1_000", "18446744073709551616", "99999999999999999999999999999", "1e999", "0.0000000000000000000000000001", "1e-999", "-1", "+1", "inf", "-inf", "nan",
 			// strings
 			`""`, `''`, `"a"`, `'a'`, `"a" "b"`, `"\n"`, `"\x"`, `"\x4"`, `"\xFF"`, `"\X41"`, `"\u12"`, `"ሴ"`, `"\U0010FFFF"`, `"\U00110000"`, `"\ud800"`, `"\777"`, `"\0"`, `"\?"`, `"\q"`,
-			`"\`, `"`, `'`, `"abc`, `'abc`, "\"a\nb\"", `"\"`, `r"a"`, `b"a"`, `rb"a"`, `x"a"`, `b'a'`, `r'`, "\"\x00\"", "\"\x7f\"", `"é"`, `"` + "\xff" + `"`,
+			`"\`, `"`, `'`, `"abc`, `'abc`, "\"a\nb\"", `"\"`, `r"a"`, `b"a"`, `rb"a"`, `x"a"`, `b'a'`, `r'`, "\"\x00\"", "\"\x7f\"", `"é"`, `"`+"\xff"+`"`,
 			// comments
 			"//", "// c\n", "//\n", "/**/", "/* c */", "/*", "*/", "/* /* */ */", "/*/", "// c", "//*\n", "/*\n*/",
 			// whitespace
